@@ -404,7 +404,10 @@ def run(run, tier, load):
     run.assumptions = ['user iterators/closures are opaque effects', 'Frame::from_samples returns None on a short iterator (C03)']
     cfgs = ['std-debug'] + (['nostd'] if tier == 'thorough' else [])
     for cfg in cfgs:
-        cx = Ctx(load(cfg))
+        fx_ = load(cfg, optional=(cfg == 'nostd'))
+        if fx_ is None:
+            continue
+        cx = Ctx(fx_)
         check_override(run, cx, cfg)
         check_truth_tables(run, cx, cfg)
         check_lookahead(run, cx, cfg)
